@@ -1,9 +1,913 @@
 import FatVerif.Model.HistMain
-/-! Property oracles evaluated on the implementation's own behaviour (history mode). -/
+import FatVerif.Spec.OracleUtil
+/-! Property oracles evaluated on the implementation's own behaviour (history mode).
+
+    `oracle.step` sees every completed operation of a history (`HistMain.OpView`): the op text, its result, its device
+    write/flush log, the implementation's image before and after. From the trace alone it tracks, per history:
+    whether a volume exists and is mounted, the geometry, live handle ids ↦ canonical path (`.`/`..`/case resolved
+    against the raw image), per file handle: mutated since open / position / pending `set_*` values, the C01 spec tree,
+    the set of fsck messages of the previous image, the status byte at mount, the read-only window of C13.
+
+    Only messages of the property in `view.prop` are produced (one property per run); state tracking always runs.
+    Message format: `"<Cxx> <signature> <detail>"`. Signatures:
+
+    * C01: `op-panic`, `tree-step`, `tree-diff`, `content-changed`
+    * C03: the fsck clauses `geom fat-link-range fat-cycle cross-link chain-broken lost-cluster size-chain dot after-end
+           lfn-run dup-long dup-short`
+    * C04: `list-vs-decode`, `content-vs-decode`, `extents-content`
+    * C05: `stats-free`, `fsinfo-free`, `fsinfo-hint`, `nospace-unsound`, `reclaim`
+    * C09: `fault-not-surfaced`, `hang`, `panic`
+    * C10: `fat-copies`, `reserved-entries` (routed from fsck), `inactive-copy-written`, `reserved-bits-changed`,
+           `reserved-entries-changed`
+    * C11: `write-region`, `write-owner`
+    * C12: `dirty-bit-not-set`, `status-not-restored`, `abandoned-not-reported`
+    * C13: `readonly-write`
+    * C14: `crash-lost`, `crash-unmountable`
+    * C18: `set-readback`, `rename-changed-times`, `foreign-times-changed` -/
 namespace FatVerif.Oracles
 
-def oracle : HistMain.OracleDef Unit where
-  init := fun _ => ()
-  step := fun s _ => (s, [])
+open FatVerif.Spec FatVerif.HistMain
+
+/-! ## State -/
+
+structure FileSt where
+  path : List String
+  /-- a `write`/`writeall`/`truncate` was issued on this handle since it was opened (size may be pending) -/
+  mutated : Bool := false
+  /-- cursor, when it can be told from the results -/
+  pos : Option Nat := some 0
+  /-- pending `set_created` / `set_modified` (y m d h mi s ms) / `set_accessed` (y m d) values -/
+  setC : Option (List Nat) := none
+  setM : Option (List Nat) := none
+  setA : Option (List Nat) := none
+  deriving Inhabited
+
+/-- C18 (i): values that the next listing of the parent must show for `path` -/
+structure Expect where
+  path : List String
+  c : Option (List Nat)
+  m : Option (List Nat)
+  a : Option (List Nat)
+  deriving Inhabited
+
+structure OState where
+  /-- geometry of the volume on the device, once a `format`/`raw`/`mount` left a parsable boot sector -/
+  geom : Option Geom := none
+  mounted : Bool := false
+  dead : Bool := false
+  dirs : Std.HashMap Nat (List String) := {}
+  files : Std.HashMap Nat FileSt := {}
+  /-- C01 spec tree (abstraction of the image after the previous operation) -/
+  tree : Option TNode := none
+  /-- C03/C10: fsck messages of the previous image -/
+  prevMsgs : Std.HashSet String := {}
+  prevClean : Bool := true
+  /-- a check was skipped (pending handle state unknown) since `prevMsgs` was computed -/
+  fsckStale : Bool := false
+  /-- status byte in the image before the `mount` of the current session -/
+  mountStatus : Nat := 0
+  /-- FS-info free count unknown (or no FS-info) in the image before the `mount` -/
+  mountFsInfoUnknown : Bool := false
+  /-- C13: no mutating operation was issued since the `mount` -/
+  roWindow : Bool := false
+  expects : List Expect := []
+  /-- the model's pending entry records after the previous operation (= before this one) -/
+  prevOverlay : Option (List (Nat × List Nat)) := some []
+  /-- C01: the comparison with the image was skipped (pending handle state unknown) -/
+  treeStale : Bool := false
+  opCount : Nat := 0
+  /-- C18 (iii): flattened metas of the image after operation number `metaAt` -/
+  metaAt : Nat := 0
+  metaFlat : Array (String × EntryMeta × ByteArray) := #[]
+  deriving Inhabited
+
+/-! ## Small helpers -/
+
+def codeToErr (code : String) (k : Option String) : Err :=
+  match code with
+  | "1" => .io ((k.bind String.toNat?).getD 0) | "2" => .eof | "3" => .writeZero | "4" => .invalidInput
+  | "5" => .notFound | "6" => .alreadyExists | "7" => .dirNotEmpty | "8" => .corrupted | "9" => .noSpace
+  | "10" => .nameLen | "11" => .nameChar | _ => .corrupted
+
+def resKind (res : List String) : String :=
+  match res with
+  | "ok" :: _ => "ok"
+  | "err" :: c :: _ => "err" ++ c
+  | r :: _ => r
+  | [] => "?"
+
+def logWrites (log : List LogItem) : List (Nat × List Nat) :=
+  log.reverse.filterMap fun it => match it with
+    | .write off bs => some (off, bs)
+    | .flush => none
+
+/-- the documented name rule: 1…255 UTF-8 bytes; every character in 0x20…0xFFFF except 0x7F and `" * / : < > ? \ |` -/
+def validName (s : String) : Option Err :=
+  if s.utf8ByteSize = 0 ∨ s.utf8ByteSize > 255 then some .nameLen
+  else if s.toList.any fun c =>
+      c.toNat < 0x20 || c.toNat > 0xFFFF || c.toNat == 0x7F ||
+      c == '"' || c == '*' || c == '/' || c == ':' || c == '<' || c == '>' || c == '?' || c == '\\' || c == '|'
+    then some .nameChar
+  else none
+
+/-- name comparison of the spec tree: ASCII and Latin-1 upper-casing, identity on everything else. Limitation: with the
+    `unicode` feature the library folds all of Unicode (`char::to_uppercase`), the table is not available to the oracles;
+    the generators' names beyond Latin-1 differ by more than case, so the difference is not exercised. -/
+def treeCfg : TreeCfg := { upper := latin1Upper, validName := validName }
+
+def parseRow (row : String) : Option (String × Bool × Nat) :=
+  match row.splitOn " " with
+  | name :: _short :: attrs :: len :: _ =>
+    let nm := if name = "-" then some "" else textOf name
+    match nm, attrs.toNat?, len.toNat? with
+    | some n, some a, some l => some (n, a / 16 % 2 == 1, l)
+    | _, _, _ => none
+  | _ => none
+
+def isMutatingOp (op : String) : Bool :=
+  ["create_file", "create_dir", "write", "writeall", "truncate", "remove", "rename", "set_created", "set_modified",
+   "set_accessed", "format", "raw"].contains op
+
+def isReadOnlyOp (op : String) : Bool :=
+  ["mount", "root", "list", "open_dir", "open_file", "seek", "read", "readx", "readall", "label", "label_root",
+   "status", "stats", "volid", "fattype", "dropf", "dropd", "unmount", "dropfs"].contains op
+
+def isFileOp (op : String) : Bool :=
+  ["read", "readx", "readall", "write", "writeall", "seek", "truncate", "flush", "dropf", "set_created", "set_modified",
+   "set_accessed", "extents"].contains op
+
+def isDirOp (op : String) : Bool :=
+  ["open_dir", "create_dir", "open_file", "create_file", "remove", "rename", "list", "dropd"].contains op
+
+/-! ## Per-operation context -/
+
+structure Ctx where
+  op : String
+  args : List String
+  rk : String
+  ok : Bool
+  /-- geometry of the volume in `before` -/
+  g : Option Geom
+  writes : List (Nat × List Nat)
+  /-- canonical paths of the objects the operation names (resolved in `before`): for `rename` source and destination -/
+  primary : List (List String)
+  /-- `primary` plus the directories its path arguments pass through by `..` components -/
+  touched : List (List String)
+  /-- the file handle the operation works on, as it was before the operation -/
+  fh : Option FileSt
+  /-- the directory handle path the operation works from -/
+  dh : Option (List String)
+  accdate : Bool
+
+def dirOf (st : OState) (tok : String) : Option (List String) := (handleId tok).bind fun d => st.dirs[d]?
+def fileOf (st : OState) (tok : String) : Option FileSt := (handleId tok).bind fun f => st.files[f]?
+
+def mkCtx (st : OState) (v : OpView) : Ctx :=
+  let toks := v.io.text.splitOn " "
+  let op := toks.headD ""
+  let args := toks.drop 1
+  let g := st.geom
+  let res1 (d p : String) : List (List String) :=
+    match g, dirOf st d, textOf p with
+    | some g, some cwd, some path => [(resolveArg g v.before cwd path).path]
+    | _, _, _ => []
+  let vis (d p : String) : List (List String) :=
+    match g, dirOf st d, textOf p with
+    | some g, some cwd, some path => (dotDotVisited cwd (path.splitOn "/")).map fun p => (pathInfo g v.before p).path
+    | _, _, _ => []
+  let visited : List (List String) := match op, args with
+    | "rename", [d, s, d2, t] => vis d s ++ vis d2 t
+    | _, [d, p, _] | _, [d, p] => if isDirOp op then vis d p else []
+    | _, _ => []
+  let primary : List (List String) := match op, args with
+    | "open_dir", [d, p, _] | "create_dir", [d, p, _] | "open_file", [d, p, _] | "create_file", [d, p, _] => res1 d p
+    | "remove", [d, p] => res1 d p
+    | "rename", [d, s, d2, t] => res1 d s ++ res1 d2 t
+    | "list", [d] | "dropd", [d] => (dirOf st d).toList
+    | _, f :: _ => if isFileOp op then ((fileOf st f).map (·.path)).toList else []
+    | _, _ => []
+  let fh := match args with
+    | f :: _ => if isFileOp op then fileOf st f else none
+    | [] => none
+  let dh := match args with
+    | d :: _ => if isDirOp op then dirOf st d else none
+    | [] => none
+  { op, args, rk := resKind v.io.res, ok := v.io.res.headD "" == "ok", g, primary, touched := primary ++ visited,
+    writes := if op == "raw" then v.io.rawWrites else logWrites v.io.log,
+    fh, dh, accdate := (Util.kv v.cfgArgs "accdate") == some "1" }
+
+/-! ## State update -/
+
+def parseNums (l : List String) : Option (List Nat) := l.mapM String.toNat?
+
+def updFile (st : OState) (tok : String) (f : FileSt → FileSt) : OState :=
+  match handleId tok with
+  | some id => match st.files[id]? with
+    | some fs => { st with files := st.files.insert id (f fs) }
+    | none => st
+  | none => st
+
+def hexLen (h : String) : Nat := if h = "-" then 0 else h.length / 2
+
+def payloadLen (p : String) : Nat :=
+  if p.startsWith "z" then ((p.drop 1).toString.toNat?).getD 0 else hexLen p
+
+/-- drop C18 expectations about `path` (or anything below it) -/
+def dropExpect (st : OState) (path : List String) : OState :=
+  { st with expects := st.expects.filter fun e => !isPrefixOf treeCfg path e.path }
+
+/-- register read-back expectations for `fs.path`; newer values override older ones field by field -/
+def addExpect (st : OState) (fs : FileSt) : OState :=
+  let old := st.expects.find? fun e => e.path == fs.path
+  let pick (n o : Option (List Nat)) : Option (List Nat) := if n.isSome then n else o
+  let e : Expect := { path := fs.path, c := pick fs.setC (old.bind (·.c)), m := pick fs.setM (old.bind (·.m)),
+                      a := pick fs.setA (old.bind (·.a)) }
+  { st with expects := e :: st.expects.filter fun e => e.path != fs.path }
+
+def update (st : OState) (v : OpView) (c : Ctx) : OState :=
+  let st := { st with opCount := st.opCount + 1 }
+  let res := v.io.res
+  if res == ["bad-script"] || res == ["dead"] then st else
+  let st := if isMutatingOp c.op then { st with roWindow := false } else st
+  if c.rk == "panic" || c.rk == "hang" then
+    { st with dead := true, mounted := false, dirs := {}, files := {}, tree := none } else
+  let gAfter := match parseGeom v.after with | .ok g => some g | .error _ => none
+  match c.op, c.args with
+  | "format", _ | "raw", _ =>
+    { st with geom := gAfter, prevMsgs := {}, prevClean := true, tree := none, expects := [] }
+  | "mount", _ =>
+    if !c.ok then st else
+    let g0 := match parseGeom v.before with | .ok g => some g | .error _ => none
+    let unknown := match g0 with
+      | some g => (match fsInfo g v.before with | some (some _, _) => false | _ => true)
+      | none => true
+    let status := match g0 with | some g => v.before.getByte g.statusByteOffset | none => 0
+    { st with geom := gAfter, mounted := true, dirs := ({} : Std.HashMap Nat (List String)).insert 0 [], files := {},
+              mountStatus := status, mountFsInfoUnknown := unknown, roWindow := true, expects := [],
+              tree := if v.prop != "C01" then none else
+                match decodeTree v.after with | .ok r => some (TNode.ofNode r) | .error _ => none }
+  | "unmount", _ | "dropfs", _ | "forget", _ =>
+    { st with mounted := false, dirs := {}, files := {}, tree := none, roWindow := false }
+  | "root", [d] =>
+    if c.ok then match handleId d with
+      | some id => { st with dirs := st.dirs.insert id [] }
+      | none => st
+    else st
+  | "open_dir", [d, p, n] | "create_dir", [d, p, n] =>
+    match c.ok, st.geom, dirOf st d, textOf p, handleId n with
+    | true, some g, some cwd, some path, some id =>
+      { st with dirs := st.dirs.insert id (resolveArg g v.after cwd path).path }
+    | _, _, _, _, _ => st
+  | "open_file", [d, p, n] | "create_file", [d, p, n] =>
+    match c.ok, st.geom, dirOf st d, textOf p, handleId n with
+    | true, some g, some cwd, some path, some id =>
+      let cp := (resolveArg g v.after cwd path).path
+      { st with files := st.files.insert id { path := cp } }
+    | _, _, _, _, _ => st
+  | "dropd", [d] => match handleId d with
+    | some id => { st with dirs := st.dirs.erase id }
+    | none => st
+  | "dropf", [f] =>
+    let st := match c.fh with
+      | some fs =>
+        if c.ok && (fs.setC.isSome || fs.setM.isSome || fs.setA.isSome) then addExpect st fs else st
+      | none => st
+    match handleId f with
+    | some id => { st with files := st.files.erase id }
+    | none => st
+  | "flush", [f] =>
+    match c.fh with
+    | some fs =>
+      if c.ok && (fs.setC.isSome || fs.setM.isSome || fs.setA.isSome) then
+        updFile (addExpect st fs) f fun s => { s with setC := none, setM := none, setA := none }
+      else st
+    | none => st
+  | "remove", _ =>
+    if c.ok then c.primary.foldl dropExpect st else st
+  | "rename", [d, _, d2, t] =>
+    match c.ok, st.geom, c.primary.head?, dirOf st d2, textOf t with
+    | true, some g, some old, some cwd2, some tp =>
+      let new := (resolveArg g v.after cwd2 tp).path
+      let _ := d
+      let st := dropExpect st old
+      { st with dirs := st.dirs.fold (fun m k p => m.insert k (remapPath treeCfg old new p)) {}
+                files := st.files.fold (fun m k f => m.insert k { f with path := remapPath treeCfg old new f.path }) {} }
+    | _, _, _, _, _ => st
+  | "read", [f, _] | "readx", [f, _] | "readall", [f] =>
+    let st := updFile st f fun s =>
+      { s with pos := if c.ok then s.pos.map (· + hexLen (res.getD 1 "-")) else none
+               setA := if c.accdate then none else s.setA }
+    -- with access dates on, a read re-stamps the accessed date when the handle is flushed
+    match c.accdate, c.fh with
+    | true, some fs => { st with expects := st.expects.map fun e => if e.path == fs.path then { e with a := none } else e }
+    | _, _ => st
+  | "write", [f, _] =>
+    let st := updFile st f fun s =>
+      { s with mutated := true, setC := none, setM := none, setA := none,
+               pos := if c.ok then s.pos.map (· + ((res.getD 1 "0").toNat?.getD 0)) else none }
+    match c.fh with | some fs => dropExpect st fs.path | none => st
+  | "writeall", [f, p] =>
+    let st := updFile st f fun s =>
+      { s with mutated := true, setC := none, setM := none, setA := none,
+               pos := if c.ok then s.pos.map (· + payloadLen p) else none }
+    match c.fh with | some fs => dropExpect st fs.path | none => st
+  | "truncate", [f] =>
+    let st := updFile st f fun s => { s with mutated := true, setC := none, setM := none, setA := none }
+    match c.fh with | some fs => dropExpect st fs.path | none => st
+  | "seek", [f, _, _] =>
+    updFile st f fun s => { s with pos := if c.ok then (res.getD 1 "").toNat? else s.pos }
+  | "set_created", f :: vals => if c.ok then updFile st f fun s => { s with setC := parseNums vals } else st
+  | "set_modified", f :: vals => if c.ok then updFile st f fun s => { s with setM := parseNums vals } else st
+  | "set_accessed", f :: vals => if c.ok then updFile st f fun s => { s with setA := parseNums vals } else st
+  | _, _ => st
+
+/-! ## C03 / C10 (a): fsck -/
+
+def splitClause (m : String) : String × String :=
+  match m.splitOn " " with
+  | cl :: rest => (cl, " ".intercalate rest)
+  | [] => ("?", "")
+
+/-- new fsck messages of `after`; returns the updated `(prevMsgs, prevClean)` -/
+def runFsck (st st' : OState) (v : OpView) (c : Ctx) (onlyFat : Bool) :
+    Std.HashSet String × Bool × Bool × List String :=
+  let keep := (st.prevMsgs, st.prevClean, st.fsckStale, [])
+  match st'.geom with
+  | none => ({}, true, false, [])
+  | some g =>
+    let fresh := c.op == "format" || c.op == "raw"
+    let prev : Std.HashSet String := if fresh then {} else st.prevMsgs
+    let prevClean := fresh || st.prevClean
+    let _ := prevClean
+    if !fresh && c.op != "forget" && c.writes.isEmpty && !st.fsckStale then keep
+    else if !onlyFat && v.overlay.isNone && !st'.files.isEmpty then (st.prevMsgs, st.prevClean, true, [])
+    else
+      let msgs :=
+        if onlyFat then checkReservedEntries g v.after g.activeCopy ++ checkFatCopies g v.after
+        else fsck v.after (v.overlay.getD [])
+      -- messages that carry a count (`lost-cluster <n> …`, `… <n> orphan long-name slot(s) …`, `… <n> used slot(s) …`)
+      -- are new only when the count grew for the same subject
+      let countKey (m : String) : Option (String × Nat) :=
+        let ws := m.splitOn " "
+        (List.range ws.length).findSome? fun i =>
+          match (ws.getD i "").toNat?, ws.getD (i + 1) "" with
+          | some n, nx => if nx == "cluster(s)" || nx == "orphan" || nx == "used" then
+                            some (" ".intercalate (ws.take i), n) else none
+          | none, _ => none
+      let prevCounts : Std.HashMap String Nat := prev.fold (fun mp m =>
+        match countKey m with
+        | some (k, n) => mp.insert k (max n (mp.getD k 0))
+        | none => mp) {}
+      let new := msgs.filter fun m =>
+        !prev.contains m && (match countKey m with
+          | some (k, n) => n > prevCounts.getD k 0
+          | none => true)
+      -- `forget` abandons the session (no destructor runs): what it leaves is a crash image, not the result of an
+      -- API call; `raw` plants bytes without the library. Their findings become the baseline for what follows
+      let new := if c.op == "forget" || c.op == "raw" then [] else new
+      let out := new.filterMap fun m =>
+        let (cl, rest) := splitClause m
+        let toC10 := cl == "fat-copies" || cl == "reserved-entries"
+        if toC10 && v.prop == "C10" then some s!"C10 {cl} op={c.op} res={c.rk} {rest}"
+        else if !toC10 && v.prop == "C03" then some s!"C03 {cl} op={c.op} res={c.rk} {rest}"
+        else none
+      (msgs.foldl (fun s m => s.insert m) {}, msgs.isEmpty, false, out)
+
+/-! ## C01 -/
+
+/-- the operation as the spec tree sees it: path arguments with 8.3 aliases of existing entries replaced by the real
+    names (looked up in `before`) -/
+def treeOpOf (st : OState) (v : OpView) (c : Ctx) : Option Spec.Op :=
+  let da (cwd : List String) (p : String) : String :=
+    match c.g with
+    | some g => dealias g v.before cwd p
+    | none => p
+  match c.op, c.args with
+  | "create_file", [d, p, _] => do let cwd ← dirOf st d; pure (.createFile cwd (da cwd (← textOf p)))
+  | "create_dir", [d, p, _] => do let cwd ← dirOf st d; pure (.createDir cwd (da cwd (← textOf p)))
+  | "open_file", [d, p, _] => do let cwd ← dirOf st d; pure (.openFile cwd (da cwd (← textOf p)))
+  | "open_dir", [d, p, _] => do let cwd ← dirOf st d; pure (.openDir cwd (da cwd (← textOf p)))
+  | "list", [d] => do pure (.list (← dirOf st d))
+  | "remove", [d, p] => do let cwd ← dirOf st d; pure (.remove cwd (da cwd (← textOf p)))
+  | "rename", [d, s, d2, t] => do
+    let cwd ← dirOf st d
+    let cwd2 ← dirOf st d2
+    pure (.rename cwd (da cwd (← textOf s)) cwd2 (da cwd2 (← textOf t)))
+  | _, _ => none
+
+/-- irregular path syntax in the arguments, named in the message so that such cases can be told apart -/
+def pathSyntax (c : Ctx) : String :=
+  let hexes := match c.op, c.args with
+    | "rename", [_, s, _, t] => [s, t]
+    | _, [_, p, _] => if isDirOp c.op then [p] else []
+    | "remove", [_, p] => [p]
+    | _, _ => []
+  let ps := hexes.filterMap textOf
+  if ps.any fun p => p.endsWith "/" then " path-syntax=trailing-slash"
+  else if ps.any fun p => p.startsWith "/" || (p.splitOn "//").length > 1 then " path-syntax=empty-component"
+  else ""
+
+/-- the observed result; in listing rows the size of a file that has a live handle is not compared (the library
+    lists the on-disk entry, the handle's pending size is in its editor): it is replaced by the spec tree's size -/
+def obsOf (st : OState) (t : TNode) (v : OpView) (c : Ctx) : Obs :=
+  match v.io.res with
+  | "ok" :: _ =>
+    if c.op == "list" then
+      let dp := c.dh.getD []
+      let live (name : String) : Bool :=
+        st.files.fold (fun b _ f => b || asciiFold (showPath f.path) == asciiFold (showPath (dp ++ [name]))) false
+      .okList ((v.io.rows.filterMap parseRow).map fun (n, d, sz) =>
+        if !d && live n then
+          match getAt treeCfg t (dp ++ [n]) with
+          | some node => (n, d, node.size)
+          | none => (n, d, sz)
+        else (n, d, sz))
+    else .ok
+  | "err" :: code :: rest => .err (codeToErr code rest.head?)
+  | _ => .ok
+
+/-- returns the messages and the spec tree to continue with (the abstraction of `after`) -/
+def oC01 (st st' : OState) (v : OpView) (c : Ctx) : Option TNode × List String :=
+  if st.mounted && (c.rk == "panic" || c.rk == "hang") && (treeOpOf st v c).isSome then
+    (none, [s!"C01 op-panic op={c.op}{pathSyntax c} the call ended in {c.rk}"]) else
+  if !st.mounted || !st'.mounted || c.op == "mount" then (st'.tree, []) else
+  match st.tree with
+  | none => (st'.tree, [])
+  | some t =>
+    let tag := s!"op={c.op} res={c.rk}{pathSyntax c}"
+    -- 1. the call against the spec
+    let (t1, m1) : TNode × List String :=
+      if c.rk == "panic" || c.rk == "hang" then (t, [s!"C01 op-panic {tag} the call ended in {c.rk}"])
+      else match treeOpOf st v c with
+        | none => (t, [])
+        | some op =>
+          match Spec.step treeCfg t op (obsOf st t v c) with
+          | .ok t' => (t', [])
+          | .error m => (t, [s!"C01 tree-step {tag} {m}"])
+    -- 2. the image against the spec tree (unchanged image and no claimed change: nothing to compare)
+    if c.writes.isEmpty && !st.treeStale && !["create_file", "create_dir", "remove", "rename"].contains c.op then
+      (some t1, m1) else
+    if v.overlay.isNone && !st'.files.isEmpty then (some t1, m1) else
+    match decodeTree (applyOverlay v.after (v.overlay.getD [])) with
+    | .error e => (none, m1 ++ [s!"C01 tree-diff {tag} the image no longer decodes: {e}"])
+    | .ok root =>
+      let abs := TNode.ofNode root
+      let m2 := match shapeDiff t1 root with
+        | some d => [s!"C01 tree-diff {tag} {d}"]
+        | none =>
+          -- 3. contents of files without a live handle (and not the file this op flushes/drops)
+          let live : Std.HashSet String :=
+            st'.files.fold (fun s _ f => s.insert (asciiFold (showPath f.path)))
+              (match c.fh with | some f => ({} : Std.HashSet String).insert (asciiFold (showPath f.path)) | none => {})
+          let spec : Std.HashMap String ByteArray := (flatT t1).foldl (fun m (p, _, b) => m.insert p b) {}
+          match (flatMeta root).find? fun (p, e, b) =>
+              !st.treeStale && !e.isDir && !live.contains (asciiFold p) && spec[p]? != some b with
+          | some (p, _, b) =>
+            [s!"C01 content-changed {tag} file '{p}' has no live handle but its content changed (now {b.size} bytes, was {(spec[p]?.map (·.size)).getD 0})"]
+          | none => []
+      (some abs, m1 ++ m2)
+
+/-! ## C04 -/
+
+def noPending (st : OState) (v : OpView) : Bool :=
+  st.files.isEmpty && (v.overlay == some [] || v.overlay.isNone)
+
+def oC04 (st : OState) (v : OpView) (c : Ctx) : List String :=
+  match c.ok, c.g with
+  | true, some g =>
+    if c.op == "list" then
+      if !noPending st v then [] else
+      match c.dh with
+      | none => []
+      | some dp =>
+        match (pathInfo g v.after dp).loc with
+        | none =>
+          -- handle paths are canonicalised with ASCII/Latin-1 folding only: a directory opened under a name that
+          -- differs from the stored one by non-Latin-1 case cannot be located; say nothing then
+          if (showPath dp).toList.any (fun ch => ch.toNat > 0xFF) then []
+          else [s!"C04 list-vs-decode dir={showPath dp} the directory is not found by the independent decoder"]
+        | some loc =>
+          match Spec.listDir g v.after loc with
+          | .error e => [s!"C04 list-vs-decode dir={showPath dp} decoder error: {e}"]
+          | .ok pd =>
+            let want := expectedRows pd
+            let got := v.io.rows.toArray.qsort (· < ·)
+            if want == got then [] else
+            let d := (want.zip got).find? fun (a, b) => a != b
+            [s!"C04 list-vs-decode dir={showPath dp} " ++ match d with
+              | some (a, b) => s!"decoder={a} library={b}"
+              | none => s!"decoder has {want.size} rows, library {got.size}"]
+    else if c.op == "readall" || c.op == "extents" then
+      match c.fh with
+      | none => []
+      | some fs =>
+        -- no handle on this file has a pending size
+        if st.files.fold (fun b _ f => b || (f.mutated && f.path == fs.path)) false then [] else
+        match (pathInfo g v.after fs.path).entry with
+        | none => []
+        | some e =>
+          match fileContent g v.after e with
+          | .error _ => []
+          | .ok content =>
+            if c.op == "readall" then
+              match fs.pos with
+              | none => []
+              | some pos =>
+                let want := Util.hexOfBytes ((content.extract pos content.size).toList.map (·.toNat))
+                let got := v.io.res.getD 1 "-"
+                if want == got then [] else
+                [s!"C04 content-vs-decode file={showPath fs.path} pos={pos} decoder has {content.size - pos} bytes, library returned {hexLen got}"]
+            else
+              let tok := v.io.res.getD 1 "-"
+              let ranges := if tok == "-" then [] else (tok.splitOn ",").filterMap fun r =>
+                match r.splitOn ":" with
+                | [o, l] => (match o.toNat?, l.toNat? with | some o, some l => some (o, l) | _, _ => none)
+                | _ => none
+              let bytes := ranges.foldl (fun acc (o, l) => acc ++ readBytes v.after o l) ByteArray.empty
+              if bytes == content then [] else
+              [s!"C04 extents-content file={showPath fs.path} extents={tok} give {bytes.size} bytes, decoder has {content.size}"]
+    else []
+  | _, _ => []
+
+/-! ## C05 -/
+
+/-- longest run of free slots (deleted or at/after the end marker) of the fixed root -/
+def rootFreeRun (g : Geom) (img : Img) : Nat := Id.run do
+  let slots := readExtents img #[(g.rootStart, g.rootDirBytes)] false
+  let mut best := 0
+  let mut cur := 0
+  let mut ended := false
+  for s in slots do
+    if s.b 0 == 0 then ended := true
+    if ended || s.b 0 == 0xE5 then
+      cur := cur + 1
+      if cur > best then best := cur
+    else cur := 0
+  return best
+
+def oC05 (st : OState) (v : OpView) (c : Ctx) : List String :=
+  match c.g with
+  | none => []
+  | some g =>
+    let nospace :=
+      if v.io.res.take 2 == ["err", "9"] then
+        let free := fatFreeCount g v.before
+        let freeAfter := fatFreeCount g v.after
+        -- a full fixed root directory is the other documented reason
+        let rootFull := g.fatBits != 32 && c.primary.any (fun p => p.length ≤ 1) && rootFreeRun g v.before < 21
+        -- a multi-cluster write may use up the last clusters before it fails: judge the state it left
+        if free == 0 || freeAfter == 0 || rootFull then []
+        else [s!"C05 nospace-unsound op={c.op} free-before={free} free-after={freeAfter}"]
+      else []
+    let main :=
+      if !c.ok then [] else
+      match c.op with
+      | "stats" =>
+        let free := fatFreeCount g v.after
+        let got := (v.io.res.getD 3 "").toNat?.getD 0
+        if free == got then [] else [s!"C05 stats-free expected={free} got={got}"]
+      | "unmount" | "dropfs" =>
+        let wroteFsInfo := c.writes.any fun (off, bs) => (classify g off bs.length).any fun (r, _, _) => r == .fsInfo
+        if g.fatBits != 32 || !wroteFsInfo then [] else
+        match fsInfo g v.after with
+        | none => []
+        | some (f, n) =>
+          let free := fatFreeCount g v.after
+          (match f with
+            | some f => if f == free then [] else [s!"C05 fsinfo-free op={c.op} fsinfo={f} fat={free}"]
+            | none => []) ++
+          (match n with
+            | some h => if 2 ≤ h && h ≤ g.totalClusters + 1 then [] else
+                [s!"C05 fsinfo-hint hint={h} total={g.totalClusters}"]
+            | none => [])
+      | "remove" =>
+        match c.primary.head? with
+        | none => []
+        | some p =>
+          match (pathInfo g v.before p).entry with
+          | none => []
+          | some e =>
+            let chain := if e.firstCluster == 0 then 0 else
+              match chainOf g v.before e.firstCluster with | .ok cs => cs.size | .error _ => 0
+            let fb := fatFreeCount g v.before
+            let fa := fatFreeCount g v.after
+            if fa == fb + chain then [] else
+            [s!"C05 reclaim op=remove path={showPath p} chain={chain} free-before={fb} free-after={fa}"]
+      | "truncate" =>
+        match c.fh, st.prevOverlay with
+        | some fs, some ov =>
+          match fs.pos with
+          | none => []
+          | some pos =>
+            let pre := applyOverlay v.before ov
+            match (pathInfo g pre fs.path).entry with
+            | none => []
+            | some e =>
+              let chain := if e.firstCluster == 0 then 0 else
+                match chainOf g pre e.firstCluster with | .ok cs => cs.size | .error _ => 0
+              let keep := min chain (ceilDiv pos g.clusterSize)
+              let fb := fatFreeCount g v.before
+              let fa := fatFreeCount g v.after
+              if fa + keep == fb + chain then [] else
+              [s!"C05 reclaim op=truncate path={showPath fs.path} pos={pos} chain={chain} keep={keep} free-before={fb} free-after={fa}"]
+        | _, _ => []
+      | _ => []
+    nospace ++ main
+
+/-! ## C09 -/
+
+def oC09 (v : OpView) (c : Ctx) : List String :=
+  match v.io.fault with
+  | none => []
+  | some (k, kind, inDrop) =>
+    if c.rk == "hang" then [s!"C09 hang op={c.op} k={k} kind={kind} indrop={inDrop}"]
+    else if c.rk == "panic" then [s!"C09 panic op={c.op} k={k} kind={kind} indrop={inDrop}"]
+    else if inDrop then []
+    else if v.io.res == ["err", "1", toString k] then []
+    else [s!"C09 fault-not-surfaced op={c.op} k={k} kind={kind} res={" ".intercalate v.io.res}"]
+
+/-! ## C10 (b)–(d) -/
+
+def oC10 (v : OpView) (c : Ctx) : List String :=
+  match c.g with
+  | none => []
+  | some g =>
+    if c.op == "format" || c.op == "raw" || c.writes.isEmpty then [] else
+    let fatPieces := c.writes.flatMap fun (off, bs) =>
+      (classify g off bs.length).filterMap fun (r, o, l) => match r with
+        | .fat copy => some (copy, o, l)
+        | _ => none
+    if fatPieces.isEmpty then [] else
+    let inactive :=
+      if g.mirroring then [] else
+      match fatPieces.find? fun (copy, _, _) => copy != g.activeCopy with
+      | some (copy, o, l) => [s!"C10 inactive-copy-written op={c.op} copy={copy} active={g.activeCopy} off={o} len={l}"]
+      | none => []
+    let reserved := (List.range g.fats).flatMap fun copy =>
+      [0, 1].filterMap fun k =>
+        let a := fatEntryRaw g v.before copy k
+        let b := fatEntryRaw g v.after copy k
+        if a == b then none else some s!"C10 reserved-entries-changed op={c.op} copy={copy} entry={k} before={a} after={b}"
+    let top :=
+      if g.fatBits != 32 then [] else
+      let bad := fatPieces.findSome? fun (copy, o, l) =>
+        let rel := o - g.fatCopyStart copy
+        (List.range ((rel + l + 3) / 4 - rel / 4)).findSome? fun i =>
+          let k := rel / 4 + i
+          let a := fatEntryRaw g v.before copy k
+          let b := fatEntryRaw g v.after copy k
+          if a != b && a / 0x10000000 != b / 0x10000000 then some (copy, k, a, b) else none
+      match bad with
+      | some (copy, k, a, b) => [s!"C10 reserved-bits-changed op={c.op} copy={copy} entry={k} before={a} after={b}"]
+      | none => []
+    inactive ++ reserved ++ top
+
+/-! ## C11 -/
+
+def oC11 (st : OState) (v : OpView) (c : Ctx) : List String :=
+  match c.g with
+  | none => []
+  | some g =>
+    if c.op == "format" || c.op == "raw" || c.writes.isEmpty then [] else
+    let harmless (r : Region) : Bool := match r with
+      | .bootStatusByte | .fsInfo | .fat _ | .rootDir => true
+      | _ => false
+    let interesting := c.writes.filter fun (off, bs) => (classify g off bs.length).any fun (r, _, _) => !harmless r
+    if interesting.isEmpty then [] else
+    -- first cluster / size of files with live handles live in their editors: judge ownership on the image overlaid
+    -- with the records pending BEFORE the operation; when those are unknown, unreferenced clusters are not judged
+    let pre := applyOverlay v.before (st.prevOverlay.getD [])
+    let lenient := st.prevOverlay.isNone && !st.files.isEmpty
+    -- cheap pass: clusters that were free, or belong to a named object / a directory on its path
+    let mine := c.touched.foldl (fun s p => chainsAlong g pre p (rootLoc g) s) ({} : Std.HashSet Nat)
+    let suspicious := interesting.filter fun (off, bs) => (classify g off bs.length).any fun (r, _, _) =>
+      match r with
+      | .cluster k => !mine.contains k && fatEntry g pre k != .free
+      | r => !harmless r
+    if suspicious.isEmpty then [] else
+    let owners := ownerMap g pre
+    let touched := c.touched.map showPath
+    suspicious.filterMap fun (off, bs) =>
+      match allowedWriteWith g pre owners touched off bs.length with
+      | none => none
+      | some m =>
+        let (sig, rest) := splitClause m
+        if lenient && (rest.splitOn "(allocated, unreferenced)").length > 1 then none
+        else some s!"C11 {sig} op={c.op} off={off} len={bs.length} named={touched} {rest}"
+
+/-! ## C12 -/
+
+/-- the write changes, inside one 32-byte slot, only the time fields (bytes 13…19, 22…25) -/
+def timestampOnly (before : Img) (off : Nat) (bs : List Nat) : Bool :=
+  !bs.isEmpty && off / 32 == (off + bs.length - 1) / 32 &&
+  (List.range bs.length).all fun i =>
+    let idx := (off + i) % 32
+    bs.getD i 0 == before.getByte (off + i) || (13 ≤ idx && idx ≤ 19) || (22 ≤ idx && idx ≤ 25)
+
+def structuralWrite (g : Geom) (before : Img) (off : Nat) (bs : List Nat) : Bool :=
+  (classify g off bs.length).any fun (r, o, l) =>
+    match r with
+    | .bootStatusByte | .fsInfo => false
+    | .rootDir | .cluster _ => !timestampOnly before o ((bs.drop (o - off)).take l)
+    | _ => true
+
+def oC12 (st : OState) (v : OpView) (c : Ctx) : List String :=
+  match c.g with
+  | none => []
+  | some g =>
+    let sb := v.after.getByte g.statusByteOffset
+    let a :=
+      if st.mounted && !["format", "raw", "mount", "unmount", "dropfs", "forget"].contains c.op then
+        match c.writes.find? fun (off, bs) => structuralWrite g v.before off bs with
+        | some (off, bs) =>
+          if sb % 2 == 1 then [] else
+          [s!"C12 dirty-bit-not-set op={c.op} res={c.rk} structural write at off={off} len={bs.length}, status byte {sb}"]
+        | none => []
+      else []
+    let b :=
+      if st.mounted && c.ok && (c.op == "unmount" || c.op == "dropfs") then
+        if sb == st.mountStatus then [] else [s!"C12 status-not-restored op={c.op} mount={st.mountStatus} now={sb}"]
+      else []
+    let cc :=
+      if st.mounted && c.ok && c.op == "status" && st.mountStatus % 2 == 1 && v.io.res.getD 1 "" != "1" then
+        [s!"C12 abandoned-not-reported status byte at mount {st.mountStatus}, status reports dirty={v.io.res.getD 1 "?"}"]
+      else []
+    a ++ b ++ cc
+
+/-! ## C13 -/
+
+def oC13 (st st' : OState) (v : OpView) (c : Ctx) : List String :=
+  if c.accdate then [] else
+  let inWindow := if c.op == "mount" then c.ok else st.roWindow && st.mounted
+  if !inWindow || !isReadOnlyOp c.op || c.writes.isEmpty then [] else
+  let g? := if c.op == "mount" then st'.geom else c.g
+  match g? with
+  | none => []
+  | some g =>
+    let unknown := if c.op == "mount" then st'.mountFsInfoUnknown else st.mountFsInfoUnknown
+    let status := if c.op == "mount" then st'.mountStatus else st.mountStatus
+    let fsInfoExempt := g.fatBits == 32 && ["stats", "unmount", "dropfs"].contains c.op && (unknown || status % 2 == 1)
+    c.writes.filterMap fun (off, bs) =>
+      let inFsInfo := (classify g off bs.length).all fun (r, _, _) => r == .fsInfo
+      if fsInfoExempt && inFsInfo then none
+      else some s!"C13 readonly-write op={c.op} off={off} len={bs.length}"
+
+/-! ## C14 -/
+
+def oC14 (v : OpView) (c : Ctx) : List String :=
+  match c.op, c.args, c.g with
+  | "crashprobe", p :: _, some g =>
+    match textOf p with
+    | none => []
+    | some path =>
+      match (pathInfo g v.before (lexPath [] (path.splitOn "/"))).entry with
+      | none => []
+      | some e =>
+        match fileContent g v.before e with
+        | .error _ => []
+        | .ok content =>
+          let want := Util.hexOfBytes (content.toList.map (·.toNat))
+          let (_, msgs) := v.io.krows.foldl (fun (acc : String × List String) row =>
+            let (prev, msgs) := acc
+            match row.splitOn " " with
+            | [j, "1", size, h] =>
+              let h' := if h == "=" then prev else h
+              if size.toNat? == some content.size && h' == want then (h', msgs)
+              else (h', msgs ++ [s!"C14 crash-lost j={j} path={path} expected {content.size} bytes, the cut image has {size}{if size.toNat? == some content.size then " (different bytes)" else ""}"])
+            | j :: "0" :: _ => ("", msgs ++ [s!"C14 crash-lost j={j} path={path} the file is not found in the cut image"])
+            | j :: "readerr" :: rest => ("", msgs ++ [s!"C14 crash-lost j={j} path={path} read error {rest}"])
+            | j :: what :: rest => ("", msgs ++ [s!"C14 crash-unmountable j={j} {what} {" ".intercalate rest}"])
+            | _ => (prev, msgs)) ("", [])
+          msgs
+  | _, _, _ => []
+
+/-! ## C18 -/
+
+/-- `L` row tokens: name short attrs len cdate ctime adate mdate mtime lfn -/
+def rowOfName (rows : List String) (name : String) : Option (List String) :=
+  rows.findSome? fun r =>
+    let t := r.splitOn " "
+    match textOf (t.headD "-") with
+    | some n => if asciiFold n == asciiFold name then some t else none
+    | none => none
+
+def checkExpect (rows : List String) (e : Expect) : List String :=
+  match e.path.getLast? with
+  | none => []
+  | some name =>
+    match rowOfName rows name with
+    | none => []
+    | some t =>
+      let cm := match e.c with
+        | some [y, mo, d, h, mi, s, ms] =>
+          let want := s!"{y}-{mo}-{d} {h}:{mi}:{s}.{ms / 10 * 10}"
+          let got := s!"{t.getD 4 ""} {t.getD 5 ""}"
+          if want == got then [] else [s!"C18 set-readback created of {showPath e.path}: set {want}, listed {got}"]
+        | _ => []
+      let mm := match e.m with
+        | some [y, mo, d, h, mi, s, _] =>
+          let want := s!"{y}-{mo}-{d} {h}:{mi}:{s / 2 * 2}"
+          let got := s!"{t.getD 7 ""} {t.getD 8 ""}"
+          if want == got then [] else [s!"C18 set-readback modified of {showPath e.path}: set {want}, listed {got}"]
+        | _ => []
+      let am := match e.a with
+        | some [y, mo, d] =>
+          let want := s!"{y}-{mo}-{d}"
+          let got := t.getD 6 ""
+          if want == got then [] else [s!"C18 set-readback accessed of {showPath e.path}: set {want}, listed {got}"]
+        | _ => []
+      cm ++ mm ++ am
+
+def flatOf (g : Geom) (img : Img) : Array (String × EntryMeta × ByteArray) :=
+  match decodeTreeG g img false with
+  | .ok r => flatMeta r
+  | .error _ => #[]
+
+/-- returns messages, the directory whose expectations were checked (and are consumed), and the flattened metas of
+    `after` if they were computed -/
+def oC18 (st : OState) (v : OpView) (c : Ctx) :
+    List String × Option (List String) × Option (Array (String × EntryMeta × ByteArray)) :=
+  match c.g with
+  | none => ([], none, none)
+  | some g =>
+    -- (i) read-back at the next listing of the parent
+    let (m1, exps) : List String × Option (List String) :=
+      if c.op == "list" && c.ok then
+        match c.dh with
+        | some dp => ((st.expects.filter fun e => e.path.dropLast == dp).flatMap (checkExpect v.io.rows), some dp)
+        | none => ([], none)
+      else ([], none)
+    if c.writes.isEmpty || !st.mounted || ["format", "raw", "mount"].contains c.op then (m1, exps, none) else
+    let fb := if st.metaAt == st.opCount && st.opCount != 0 then st.metaFlat else flatOf g v.before
+    let fa := flatOf g v.after
+    -- (ii) rename keeps the times of the moved entry
+    let m2 :=
+      if c.op == "rename" && c.ok then
+        match c.primary with
+        | [old, _] =>
+          match st.dirs, c.args with
+          | _, [_, _, d2, t] =>
+            match dirOf st d2, textOf t with
+            | some cwd2, some tp =>
+              let new := (resolveArg g v.after cwd2 tp).path
+              match fb.find? (fun (p, _, _) => p == showPath old), fa.find? (fun (p, _, _) => p == showPath new) with
+              | some (_, eb, _), some (_, ea, _) =>
+                if eb.times == ea.times then [] else
+                [s!"C18 rename-changed-times {showPath old} -> {showPath new}: raw time fields before {eb.times} after {ea.times}"]
+              | _, _ => []
+            | _, _ => []
+          | _, _ => []
+        | _ => []
+      else []
+    -- (iii) entries the operation does not name keep their time bytes
+    let named := c.touched.map showPath
+    let related (p : String) : Bool :=
+      named.any fun n => n == p || (n ++ "/").startsWith (p ++ "/") || (p ++ "/").startsWith (n ++ "/")
+    let after : Std.HashMap String EntryMeta := fa.foldl (fun m (p, e, _) => m.insert p e) {}
+    let m3 := match fb.find? fun (p, e, _) =>
+        !related p && (match after[p]? with | some e' => e'.times != e.times | none => false) with
+      | some (p, e, _) =>
+        [s!"C18 foreign-times-changed op={c.op} named={named} entry {p}: raw time fields before {e.times} after {(after[p]?.map (·.times)).getD []}"]
+      | none => []
+    (m1 ++ m2 ++ m3, exps, some fa)
+
+/-! ## The oracle -/
+
+def stepO (st : OState) (v : OpView) : OState × List String :=
+  let res := v.io.res
+  if res == ["bad-script"] || res == ["dead"] then ({ st with opCount := st.opCount + 1 }, []) else
+  let c := mkCtx st v
+  let st' := { update st v c with prevOverlay := v.overlay }
+  match v.prop with
+  | "C03" =>
+    let (pm, pc, stale, msgs) := runFsck st st' v c false
+    ({ st' with prevMsgs := pm, prevClean := pc, fsckStale := stale }, msgs)
+  | "C10" =>
+    let (pm, pc, stale, msgs) := runFsck st st' v c true
+    ({ st' with prevMsgs := pm, prevClean := pc, fsckStale := stale }, msgs ++ oC10 v c)
+  | "C01" =>
+    let (t, msgs) := oC01 st st' v c
+    let skipped := st'.mounted && v.overlay.isNone && !st'.files.isEmpty
+    ({ st' with tree := t, treeStale := skipped && (st.treeStale || !c.writes.isEmpty) }, msgs)
+  | "C04" => ({ st' with tree := none }, oC04 st' v c)
+  | "C05" => ({ st' with tree := none }, oC05 st v c)
+  | "C09" => ({ st' with tree := none }, oC09 v c)
+  | "C11" => ({ st' with tree := none }, oC11 st v c)
+  | "C12" => ({ st' with tree := none }, oC12 st v c)
+  | "C13" => ({ st' with tree := none }, oC13 st st' v c)
+  | "C14" => ({ st' with tree := none }, oC14 v c)
+  | "C18" =>
+    let (msgs, listed, fa) := oC18 st v c
+    let st' := match listed with
+      | some dp => { st' with expects := st'.expects.filter fun e => e.path.dropLast != dp }
+      | none => st'
+    match fa with
+    | some f => ({ st' with metaAt := st'.opCount, metaFlat := f }, msgs)
+    | none => (st', msgs)
+  | _ => ({ st' with tree := none }, [])
+
+def oracle : HistMain.OracleDef OState where
+  init := fun _ => {}
+  step := stepO
 
 end FatVerif.Oracles
